@@ -86,3 +86,14 @@ Example c14_nonvacuous :
    draw_decision Z Z.ltb Z.leb Z.mul 50 60 700 7 10 6 2 = "implicit" /\
    draw_decision Z Z.ltb Z.leb Z.mul 50 60 7 7 10 6 2 = "explicit")%Z.
 Proof. vm_compute. repeat split. Qed.
+
+(* the wiring of the benchmark into the decision, REGENERATED from check_stiffness on every run: both candidates are
+   benchmarked, unconditionally, the explicit one first; and the parameter that the decision function (and the table
+   theorems above) call the implicit / explicit minimum / average step size receives exactly that measurement *)
+From OdeVerif Require Import Gen.WiringGen.
+Theorem c14_wiring :
+  benchmarked = [Explicit; Implicit] /\
+  decision_arguments = [(Implicit, MinStep); (Explicit, MinStep); (Implicit, AvgStep); (Explicit, AvgStep)] /\
+  firstn 4 draw_params = ["step_min_imp"%string; "step_min_exp"%string; "step_average_imp"%string; "step_average_exp"%string].
+Proof. repeat split; reflexivity. Qed.
+Print Assumptions c14_wiring.
